@@ -515,3 +515,48 @@ litrange!(c04_litrange_dec5, false, false, 5);
 litrange!(c04_litrange_dec_neg5, false, true, 5);
 litrange!(c04_litrange_hex5, true, false, 5);
 litrange!(c04_litrange_hex_neg4, true, true, 4);
+
+// -------------------------------------------------------------- C01 H-sep: separators
+/// the separator set is exactly {space, tab, LF, VT?, FF, CR, ',', ':'} as documented (ASCII whitespace plus comma
+/// and colon), for every char
+#[kani::proof]
+fn c01_separator_set() {
+    let c: char = kani::any();
+    let want = matches!(c, ' ' | '\t' | '\n' | '\x0C' | '\r' | ',' | ':');
+    assert!(is_whitespace(c) == want, "separator set differs from ASCII whitespace + ',' + ':'");
+    assert!(is_reg_num(c) == matches!(c, '0'..='7'));
+    assert!(is_id(c) == (c.is_ascii_alphanumeric() || c == '_'));
+    kani::cover!(c == ':');
+    kani::cover!(c == '\u{a0}');
+}
+
+/// a register token preceded by any separator lexes to the same register: `<sep>rN` via advance_real
+#[kani::proof]
+#[kani::unwind(7)]
+#[kani::stub(alloc::fmt::format, stubs::fmt_format)]
+#[kani::stub(Cursor::check_instruction, Cursor::check_instruction_any)]
+#[kani::stub(Cursor::check_trap, Cursor::check_trap_any)]
+fn c01_separator_before_register() {
+    let sep: u8 = kani::any();
+    kani::assume(matches!(sep, b' ' | b'\t' | b'\n' | b'\r' | b',' | b':'));
+    let d: u8 = kani::any();
+    kani::assume(d < 8);
+    let upper: bool = kani::any();
+    static mut SBUF: [u8; 3] = [0; 3];
+    let src: &'static str = unsafe {
+        SBUF = [sep, if upper { b'R' } else { b'r' }, b'0' + d];
+        core::str::from_utf8_unchecked(&*core::ptr::addr_of!(SBUF).cast::<[u8; 3]>())
+    };
+    let mut c = Cursor::new(src);
+    match c.advance_real() {
+        Ok(t) => {
+            assert!(matches!(t.kind, TokenKind::Reg(r) if r as u8 == d), "register after a separator not lexed as that register");
+            assert!(t.span.offs() == 1 && t.span.len() == 2, "register token span wrong");
+        }
+        Err(e) => {
+            core::mem::forget(e);
+            assert!(false, "register after a separator rejected");
+        }
+    }
+    kani::cover!(sep == b':' && upper && d == 7);
+}
